@@ -321,10 +321,8 @@ contract('hl7apy.core:Element.is_named', sig={'self': 'Element', 'name': 'str'},
          ensures=[('answer', 'result == ((self.name is not None and upper(name) == self.name) or '
                              '(self.long_name is not None and upper(name) == self.long_name))')],
          raises={}, raises_only=[], modifies=[], properties=['C14'])
-contract('hl7apy.core:Element._get_parent', sig={'self': 'Element'}, returns='Element?',
-         ensures=[('answer', 'result is self._parent')], raises={}, raises_only=[], modifies=[], properties=['C10'])
-contract('hl7apy.core:Element._get_traversal_parent', sig={'self': 'Element'}, returns='Element?',
-         ensures=[('answer', 'result is self._traversal_parent')], raises={}, raises_only=[], modifies=[], properties=['C10', 'C11'])
+# (contracts on the one-line property getters _get_parent / _get_traversal_parent were tried and withdrawn: with them
+# the getters are no longer inlined at `child.parent` reads and ElementList.append#post.segment_last_index went unknown)
 
 def _all_cls_attrs():
     from hl7apy import core
@@ -358,4 +356,27 @@ contract(
     raises_only=['ValueError', 'ChildNotFound', 'ChildNotValid', 'AttributeError'],
     modifies=None,
     properties=['C09', 'C12', 'C14'],
+)
+
+# x.<name> for a name that is not an attribute of the element (only then python calls __getattr__): the by-name view of
+# the element's OWN children under the canonical name; reading never writes the children (C11), any spelling of the
+# name designates the same view (C14: canon() is a function of the upper-cased name)
+contract(
+    'hl7apy.core:Element.__getattr__[child]',
+    sig={'self': 'Element', 'name': 'str'},
+    returns='ElementProxy?',
+    requires=['sep(self.children)', 'proxies_ok(self.children)', 'self.children.element is self'] +
+             ['name != "%s"' % _a for _a in _ALL_CLS_ATTRS],
+    ensures=[
+        ('own_view', 'implies(result is not None, result.element_list is self.children and '
+                     '(result.element_name == upper(name) if (idx_has(self.children, name) or tidx_has(self.children, name)) '
+                     'else result.element_name == upper(canon(self, upper(name)))))'),
+        ('children_untouched', 'list_unchanged(self.children.list) and dict_unchanged(self.children.indexes) and '
+                               'dict_unchanged(self.children.traversal_indexes)'),
+    ],
+    raises={'ChildNotFound': {'modifies': []}, 'ChildNotValid': {'modifies': []}},
+    raises_only=['ChildNotFound', 'ChildNotValid'],
+    modifies=['self.children.proxies{}'],
+    allocates=True,
+    properties=['C11', 'C14'],
 )
